@@ -318,8 +318,7 @@ Section Generic.
   Lemma fn_regex_map l r b : map_data (fn_regex Q rx l r b) = fn_regex J rx (map_data l) (map_data r) b.
   Proof.
     unfold fn_regex. rewrite !data_str_map.
-    destruct (data_str Q l), (data_str Q r); try apply d_bool_map.
-    destruct (rx _ _); apply d_bool_map.
+    destruct (data_str Q l), (data_str Q r); apply d_bool_map.
   Qed.
 
   Lemma custom_args_map ds : map repr (custom_args ds) = custom_args (map map_data ds).
